@@ -265,32 +265,64 @@ def buffer_aliasing(chk):
 INPLACE_METHODS = ("copy_", "fill_", "zero_", "mul_", "div_", "add_", "sub_", "set_", "clamp_", "lerp_", "addcmul_", "masked_fill_", "resize_")
 
 
+def _inplace_writes_in(fn, names, resolve):
+    """the nodes of `fn` that write a buffer named in `names` in place; resolve(name) -> FunctionDef of a module-level helper or None"""
+    from ..core import _is_setter_procedure
+    out = []
+    isbuf = lambda e: isinstance(e, ast.Attribute) and e.attr in names
+    for nd in ast.walk(fn):
+        if isinstance(nd, ast.Call) and isinstance(nd.func, ast.Attribute) and nd.func.attr in INPLACE_METHODS and isbuf(nd.func.value):
+            out.append(nd)
+        elif isinstance(nd, ast.Call) and isinstance(nd.func, ast.Name) and any(isbuf(a) for a in nd.args):
+            h = resolve(nd.func.id)
+            if h is not None and _is_setter_procedure(h):
+                written = {c.func.value.id for c in ast.walk(h) if isinstance(c, ast.Call) and isinstance(c.func, ast.Attribute) and c.func.attr in INPLACE_METHODS and isinstance(c.func.value, ast.Name)}
+                params = [a.arg for a in h.args.args]
+                if any(isbuf(a) and i < len(params) and params[i] in written for i, a in enumerate(nd.args)):
+                    out.append(nd)
+        elif isinstance(nd, (ast.Assign, ast.AugAssign)):
+            for t in (nd.targets if isinstance(nd, ast.Assign) else [nd.target]):
+                if isinstance(t, ast.Subscript) and isbuf(t.value) or isinstance(t, ast.Attribute) and t.attr == "data" and isbuf(t.value) \
+                        or isinstance(nd, ast.AugAssign) and isbuf(t):
+                    out.append(nd)
+    return out
+
+
+_POSITIVE_EXAMPLE = """
+def _set(buf, value):
+    with torch.no_grad():
+        buf.copy_(value)
+
+def hook(self, module, input):
+    _set(module.input_scale, input.abs().max())
+    module.output_scale.mul_(2)
+    module.input_scale[...] = 1.0
+    module.output_scale.data = input
+    module.input_scale = input          # a replacement: not a write in place
+"""
+
+
 def buffer_inplace_writers(repo, names=("input_scale", "output_scale")):
     """Package functions that write a registered activation-scale buffer IN PLACE: `m.<buf>.copy_(v)` (any in-place method), `m.<buf>[...] = v`,
     `m.<buf>.data = v`, or a call of a setter procedure (a helper that writes its parameter in place) with the buffer as argument.
     Returns (module info, function, node, text)."""
-    from ..core import _is_setter_procedure
+    # the expected count on a healthy tree is zero: the detector is exercised on a built-in example first, so that it cannot pass by seeing nothing
+    tree = ast.parse(_POSITIVE_EXAMPLE)
+    fns = {n.name: n for n in tree.body if isinstance(n, ast.FunctionDef)}
+    got = _inplace_writes_in(fns["hook"], names, fns.get)
+    if len(got) != 4:
+        raise AnalysisError(f"in-place writer detector finds {len(got)} of the 4 writes of its built-in example")
     out = []
     for mi in repo.modules.values():
         if not mi.rel.startswith("optimum/"):
             continue
+
+        def res(name, mi=mi):
+            r = repo.resolve(mi, name)
+            return r[1] if r is not None and isinstance(r[1], ast.FunctionDef) else None
         for fn in [x for x in ast.walk(mi.tree) if isinstance(x, ast.FunctionDef)]:
-            for nd in ast.walk(fn):
-                isbuf = lambda e: isinstance(e, ast.Attribute) and e.attr in names
-                if isinstance(nd, ast.Call) and isinstance(nd.func, ast.Attribute) and nd.func.attr in INPLACE_METHODS and isbuf(nd.func.value):
-                    out.append((mi, fn, nd, U(nd)[:70]))
-                elif isinstance(nd, ast.Call) and isinstance(nd.func, ast.Name) and any(isbuf(a) for a in nd.args):
-                    r = repo.resolve(mi, nd.func.id)
-                    if r is not None and isinstance(r[1], ast.FunctionDef) and _is_setter_procedure(r[1]):
-                        written = {c.func.value.id for c in ast.walk(r[1]) if isinstance(c, ast.Call) and isinstance(c.func, ast.Attribute) and c.func.attr in INPLACE_METHODS and isinstance(c.func.value, ast.Name)}
-                        params = [a.arg for a in r[1].args.args]
-                        if any(isbuf(a) and i < len(params) and params[i] in written for i, a in enumerate(nd.args)):
-                            out.append((mi, fn, nd, U(nd)[:70]))
-                elif isinstance(nd, (ast.Assign, ast.AugAssign)):
-                    for t in (nd.targets if isinstance(nd, ast.Assign) else [nd.target]):
-                        if isinstance(t, ast.Subscript) and isbuf(t.value) or isinstance(t, ast.Attribute) and t.attr == "data" and isbuf(t.value) \
-                                or isinstance(nd, ast.AugAssign) and isbuf(t):
-                            out.append((mi, fn, nd, U(nd)[:70]))
+            for nd in _inplace_writes_in(fn, names, res):
+                out.append((mi, fn, nd, U(nd)[:70]))
     return out
 
 
